@@ -191,3 +191,63 @@ func canonOfGo(x any) string {
 func (v *JV) emptyish() bool {
 	return v == nil || v.Kind == 'n' || (v.Kind == 'o' && len(v.Keys) == 0)
 }
+
+// bytes serialises the tree again (member order and duplicates kept).
+func (v *JV) bytes() []byte {
+	var b bytes.Buffer
+	v.write(&b)
+	return b.Bytes()
+}
+
+func (v *JV) write(b *bytes.Buffer) {
+	switch v.Kind {
+	case 'n':
+		b.WriteString("null")
+	case 'b':
+		fmt.Fprint(b, v.B)
+	case '0':
+		b.WriteString(v.Num)
+	case 's':
+		s, _ := json.Marshal(v.Str)
+		b.Write(s)
+	case 'a':
+		b.WriteByte('[')
+		for i, e := range v.Arr {
+			if i > 0 {
+				b.WriteByte(',')
+			}
+			e.write(b)
+		}
+		b.WriteByte(']')
+	case 'o':
+		b.WriteByte('{')
+		for i, k := range v.Keys {
+			if i > 0 {
+				b.WriteByte(',')
+			}
+			s, _ := json.Marshal(k)
+			b.Write(s)
+			b.WriteByte(':')
+			v.Vals[i].write(b)
+		}
+		b.WriteByte('}')
+	case 'r': // raw text spliced in by a mutation
+		b.WriteString(v.Str)
+	}
+}
+
+// slots lists pointers to every value position of the tree (for mutation).
+func (v *JV) slots(out *[]**JV) {
+	switch v.Kind {
+	case 'a':
+		for i := range v.Arr {
+			*out = append(*out, &v.Arr[i])
+			v.Arr[i].slots(out)
+		}
+	case 'o':
+		for i := range v.Vals {
+			*out = append(*out, &v.Vals[i])
+			v.Vals[i].slots(out)
+		}
+	}
+}
